@@ -9,14 +9,23 @@ for d, m in metas:
                 "yes" if m.get('applies_to_repo_head') else "no (the code it patches was replaced by a fix)"))
 n = len(metas)
 late = sum(1 for _, m in metas if 'strengthen' in str(m.get('status')) or 'strengthen' in str(m.get('detected_by')))
+rounds = max(int(m.get('round', 1)) for _, m in metas)
+missed = sum(1 for _, m in metas if str(m.get('detected_by')).startswith('missed'))
 head = ("%d changes written by sub-agents that saw only the property text (and, from the third round on, one-line\n"
-        "summaries of the earlier changes for the same property, so as not to repeat them) and a scratch\n"
-        "worktree: three rounds per property. Each was confirmed by its own `demo.rs` against the patched\n"
-        "library, applied to `/repo`, checked, and reverted (`tools/mutant.sh`). %d of them led to a\n"
-        "strengthened generator or falsifier (missed, or caught by one of tie/falsifier only) and are\n"
-        "caught after the change named in the table. Two round-1 patches no longer apply because the code\n"
-        "they patch was replaced by a fix commit.\n\n"
-        "| change | property | caught by | applies to HEAD |\n|---|---|---|---|\n") % (n, late)
+        "summaries of the earlier changes for the same property, so as not to repeat them; from the fourth round\n"
+        "on they were asked for changes that need a RARE condition to manifest) and a scratch worktree: %d rounds\n"
+        "per property. Each was confirmed by its own `demo.rs` against the patched library, applied to `/repo`,\n"
+        "checked, and reverted (`tools/mutant.sh`). %d were missed by the check as committed at the time and %d more\n"
+        "were caught by only one of tie/falsifier or by a single case; each of these led to a new generator or\n"
+        "falsifier class (named in the table), after which it is caught. The classes that were missing are the\n"
+        "lesson of these rounds: extents beyond internal block sizes (64 samples per group, 32/128 rows, 8 lanes),\n"
+        "two instances of a structure (two feedback blocks, two loop connections, a shared skip source), special\n"
+        "float values in every tensor path, optional arguments (`print`, one-sided clamps), architectures without\n"
+        "a dense layer, exact zeros in optimizer state, equal element counts with different dimensions. They are now\n"
+        "generated deterministically in the quick tier. Two round-1 patches no longer apply because the code they\n"
+        "patch was replaced by a fix commit. `tools/mutants_all.sh` re-applies every stored change and expects\n"
+        "exit 1 from the property's check.\n\n"
+        "| change | property | caught by | applies to HEAD |\n|---|---|---|---|\n") % (n, rounds, missed, late - missed)
 a = s.index("### D5. Seeded changes: which check catches which")
 b = s.index("When a check reports a seeded change through the tie")
 s = s[:a] + "### D5. Seeded changes: which check catches which\n\n" + head + "\n".join(rows) + "\n\n" + s[b:]
